@@ -706,7 +706,7 @@ def stub_fast(rng, n):
         try:
             try:
                 sc.Scheduler.use_fast_storage_for_feature_maps(me, schedule, limit)
-            except AssertionError:
+            except Exception:  # noqa: B902  recorded by the wrapper as the outcome of the call
                 pass
         finally:
             sc.live_range.extract_live_ranges_from_schedule = orig_extract
@@ -853,6 +853,10 @@ def stage(ck, outs, prefix="sched_"):
                          f"({len(l2)} rejection(s) in network {o['idx']} {o['profile']} {o.get('opts')})",
                          rp(o, {"spec_request": s["line"][:4000], "verdict": a, "all": [(x["kind"], y) for x, y in lst[:8]]}),
                          found_input=True, key=KNOWN_KEYS.get(kind))
+    # a rejection that is a recorded finding does not make a model/code disagreement on the same network a failing input
+    rejected = {k: [x for x in v if not (KNOWN_KEYS.get(x[0]["kind"]) and ck.finding_key_known(KNOWN_KEYS[x[0]["kind"]]) is not None)]
+                for k, v in rejected.items()}
+    rejected = {k: v for k, v in rejected.items() if v}
     # model = real
     disagreements = []
     kinds = {}
